@@ -69,7 +69,7 @@ where
     S: Fcntl + Read + Sigmask,
 {
     async fn read_all_to(&self, fd: Fd, buffer: &mut Vec<u8>) -> Result<(), Errno> {
-        let this = TemporaryNonBlockingGuard::new(self, fd);
+        let mut this = TemporaryNonBlockingGuard::new(self, fd);
         let waker = LazyCell::default();
         let mut effective_length = buffer.len();
         loop {
@@ -92,7 +92,10 @@ where
                     unreachable_patterns,
                     reason = "EWOULDBLOCK is unreachable if it has the same value as EAGAIN"
                 )]
-                Err(Errno::EAGAIN | Errno::EWOULDBLOCK) => this.yield_for_read(fd, &waker).await,
+                Err(Errno::EAGAIN | Errno::EWOULDBLOCK) => {
+                    this.yield_for_read(fd, &waker).await;
+                    this.ensure_nonblocking();
+                }
 
                 Err(e) => {
                     buffer.truncate(effective_length);
@@ -147,7 +150,7 @@ where
             return Ok(());
         }
 
-        let this = TemporaryNonBlockingGuard::new(self, fd);
+        let mut this = TemporaryNonBlockingGuard::new(self, fd);
         let waker = LazyCell::default();
         loop {
             match this.inner.write(fd, data).await {
@@ -156,7 +159,8 @@ where
                     reason = "EWOULDBLOCK is unreachable if it has the same value as EAGAIN"
                 )]
                 Ok(0) | Err(Errno::EAGAIN | Errno::EWOULDBLOCK) => {
-                    this.yield_for_write(fd, &waker).await
+                    this.yield_for_write(fd, &waker).await;
+                    this.ensure_nonblocking();
                 }
 
                 Ok(n) => {
